@@ -28,6 +28,7 @@ representation*/
 #include "instructions.h"
 #include "reg_parser.h"
 #include "tokenizer.h"
+#include "verif_hooks.h"
 #include <ctype.h>
 #include <stdlib.h>
 #include <string.h>
@@ -237,6 +238,8 @@ static int check_len_or_resize(assemblyline_t al, int buf_pos) {
                           al->buffer_len + MEM_BUFFER, MREMAP_MAYMOVE);
     // NOLINTNEXTLINE(performance-no-int-to-ptr)
     FAIL_SYS(resize == MAP_FAILED, "failed to resize buffer\n", EXIT_FAILURE)
+    AL_VERIF_GROW(al, al->buffer_len, al->buffer_len + MEM_BUFFER,
+                  (uint8_t *)resize != al->buffer);
     al->buffer_len += MEM_BUFFER;
     al->buffer = (uint8_t *)resize;
 #else
@@ -261,6 +264,7 @@ static int assemble_counting_chunks(assemblyline_t al, struct instr *new_instr,
   FAIL_IF(check_len_or_resize(al, *buf_pos));
   unsigned int free_space = al->chunk_size - (*buf_pos % al->chunk_size);
   unsigned int written_length = assemble_asm(new_instr, al->buffer + *buf_pos);
+  AL_VERIF_EMIT(al, *buf_pos, written_length, al->buffer_len, 0);
   // check if the current instruction machine code crosses the chunk boundary
   if (written_length > free_space)
     (*chunk_brks)++;
@@ -279,6 +283,7 @@ static int assemble(assemblyline_t al, struct instr *new_instr,
 
   FAIL_IF(check_len_or_resize(al, *buf_pos));
   unsigned int written_length = assemble_asm(new_instr, al->buffer + *buf_pos);
+  AL_VERIF_EMIT(al, *buf_pos, written_length, al->buffer_len, 0);
   if (al->debug)
     debug_without_chunksize(written_length, al->buffer + *buf_pos);
   *buf_pos += written_length;
@@ -305,8 +310,10 @@ static int assemble_with_chunk_fitting(assemblyline_t al,
     if (written_length <= free_chunk_space ||
         written_length >= al->chunk_size ||
         written_length == free_chunk_space + al->chunk_size) {
+      AL_VERIF_EMIT(al, *buf_pos, written_length, al->buffer_len, 0);
       *buf_pos += written_length;
     } else {
+      AL_VERIF_EMIT(al, *buf_pos, free_chunk_space, al->buffer_len, 1);
       *buf_pos += nop_padding(al->buffer + *buf_pos, free_chunk_space);
       assemble_again = true;
     }
